@@ -99,6 +99,10 @@ static void life_case(uint64_t idx)
         sb_printf(&s, "}"); vh_sample(s.p); sb_free(&s);
     }
     am_reset();
+    /* one case in four runs on an allocator that only guarantees 8-byte alignment (blocks start at 8 or 24 modulo 32), as on
+       32-bit ABIs: the library's own over-allocation and rounding must still keep every context inside its block */
+    am_set_min_align((idx & 3) == 1 ? 8 : 16);
+    if ((idx & 3) == 1) VH_COUNT("cases_on_weakly_aligned_allocator", 1);
     /* interleave */
     while (remaining > 0) {
         char pfx[160];
@@ -189,6 +193,7 @@ static void life_case(uint64_t idx)
             if (x->bad == AM_BAD_DOUBLE) bad = "double-free";
             else if (x->bad == AM_BAD_FOREIGN || x->bad == AM_BAD_DECOY) bad = "free-of-pointer-never-allocated";
             else if (x->bad == AM_BAD_INTERIOR) bad = "free-of-interior-pointer";
+            else if (x->bad == AM_BAD_OVERRUN) bad = "wrote-beyond-the-allocated-block";
             else if (o && o->expect == 0) bad = "allocator-event-during-invalid-or-inert-call";
             else if (o && (is_par[j] ? o->kind == P_CLEANUP : o->kind == C_CLEANUP) && (o->flags & F_NULL_OBJ)) bad = "allocator-event-during-cleanup(NULL)";
             if (!bad && x->op == AM_FREE && x->block >= 0) {
@@ -263,6 +268,7 @@ static void c16_case(uint64_t idx)
     vh_case_begin(idx, key, d);
     if (be >= nbe) { VH_COUNT("skipped_backend_not_available", 1); return; }
     am_release_all(); am_hard_reset();
+    am_set_min_align(((idx / 108) & 1) ? 8 : 16);       /* every second sweep: an allocator that only guarantees 8-byte alignment */
     vh_set_cap((int)be);
     memset(z, 0, sizeof(z)); vh_rand_bytes(&r, bkey, 16); vh_rand_bytes(&r, bctr, 16); vh_rand_bytes(&r, bin, 64);
     /* bystander object B, live and keyed, must be unaffected */
@@ -281,7 +287,7 @@ static void c16_case(uint64_t idx)
     vh_call_begin("cleanup(dry-run)"); if (par) c->par_cleanup(&A); else c->ctr_cleanup(&A); vh_call_end();
     for (k = 1; k <= nreq; ++k) {
         const am_event *ev; int nev, e, i; long w;
-        const char *bad = NULL; int rets[8], nr = 0;
+        const char *bad = NULL; int rets[14], nr = 0;
         /* prior contents of the caller's handle */
         switch (cls) {
         case 0: memset(&A, 0, sizeof(A)); break;
@@ -296,12 +302,16 @@ static void c16_case(uint64_t idx)
         if (vh_def_available() && cls <= 3) vh_make_undef(&A, sizeof(A));      /* definedness monitor: the caller's handle holds nothing the library may rely on */
         am_reset(); am_mark(0, 1);
         am_set_fail_at(k);
-        snprintf(key, sizeof(key), "C16:%s:init-with-failing-allocation", nm); vh_set_crash_key(key);
+        snprintf(key, sizeof(key), "%s:%s:init-with-failing-allocation", c14 ? "C14" : "C16", nm); vh_set_crash_key(key);
         vh_call_begin("init(allocation fails)"); ret = par ? c->par_init(&A) : c->ctr_init(&A); vh_call_end();
         am_set_fail_at(-1);
         VH_COUNT("fault_cases", 1);
         { char cn[96]; snprintf(cn, sizeof(cn), "faults_%s%s_%s", c->name, par ? "-parallel" : "", vh_backend_names[be]); *vh_counter_ref(cn) += 1; }
         if (ret != 0) bad = "init-did-not-return-0";
+        if (ret != 0 && c14) {      /* C14 speaks about objects that failed to initialise; this one claims to be live (C16 judges that) */
+            vh_call_begin("cleanup(init reported success)"); if (par) c->par_cleanup(&A); else c->ctr_cleanup(&A); vh_call_end();
+            continue;
+        }
         if (vh_def_available() && cls <= 3) {
             snprintf(key, sizeof(key), "%s:%s:handle-after-failed-init", prop, nm); vh_set_crash_key(key);
             vh_check_defined("return-value", &ret, sizeof(ret));
@@ -318,6 +328,8 @@ static void c16_case(uint64_t idx)
             vh_call_begin("ctr_set_tweak(after failed init)"); rets[nr++] = c->ctr_set_tweak(&A, bctr, 8); vh_call_end();
             vh_call_begin("ctr_set_counter(after failed init)"); rets[nr++] = c->ctr_set_counter(&A, bctr, c->bb); vh_call_end();
             vh_call_begin("ctr_encrypt(after failed init)"); rets[nr++] = c->ctr_encrypt(out, z, 40, &A); vh_call_end();
+            vh_call_begin("ctr_encrypt(after failed init, 0 bytes)"); rets[nr++] = c->ctr_encrypt(out, z, 0, &A); vh_call_end();
+            vh_call_begin("ctr_set_counter(after failed init, NULL)"); rets[nr++] = c->ctr_set_counter(&A, NULL, 0); vh_call_end();
             vh_call_begin("ctr_cleanup(after failed init)"); c->ctr_cleanup(&A); vh_call_end();
             vh_call_begin("ctr_cleanup(again)"); c->ctr_cleanup(&A); vh_call_end();
             vh_call_begin("ctr_encrypt(after cleanup)"); rets[nr++] = c->ctr_encrypt(out, z, 40, &A); vh_call_end();
@@ -326,6 +338,8 @@ static void c16_case(uint64_t idx)
             vh_call_begin("parallel_set_key(after failed init)"); rets[nr++] = c->par_set_key(&A, bkey, 16, 7, MANTIS_ENCRYPT); vh_call_end();
             vh_call_begin("parallel_encrypt(after failed init)"); rets[nr++] = c->par_encrypt(out, z, z, c->bb * 2, &A); vh_call_end();
             if (c->par_decrypt) { vh_call_begin("parallel_decrypt(after failed init)"); rets[nr++] = c->par_decrypt(out, z, z, c->bb * 2, &A); vh_call_end(); }
+            vh_call_begin("parallel_encrypt(after failed init, 0 bytes)"); rets[nr++] = c->par_encrypt(out, z, z, 0, &A); vh_call_end();
+            if (c->par_decrypt) { vh_call_begin("parallel_decrypt(after failed init, 0 bytes)"); rets[nr++] = c->par_decrypt(out, z, z, 0, &A); vh_call_end(); }
             if (c->par_swap) { vh_call_begin("parallel_swap(after failed init)"); c->par_swap(&A); vh_call_end(); }
             vh_call_begin("parallel_cleanup(after failed init)"); c->par_cleanup(&A); vh_call_end();
             vh_call_begin("parallel_cleanup(again)"); c->par_cleanup(&A); vh_call_end();
